@@ -260,6 +260,7 @@ pub fn db_strategy(with_errors: bool) -> BoxedStrategy<DbSpec> {
                         filter_sets,
                         errors,
                         empty_as_c,
+                        epoch_errors: Vec::new(),
                     },
                     filter_exprs,
                     chunk: if chunk == 3 { 7 } else { 0 },
@@ -516,12 +517,30 @@ impl Prop for C17 {
             .prop_flat_map(|spec| {
                 let (mut a, r, f) = names_of(&spec);
                 a.push("AS-UNKNOWN".into());
+                let keys = prop_oneof![
+                    1 => any::<u16>().prop_map(|i| AS_SET_NAMES[pick_idx(i, AS_SET_NAMES.len())].to_string()),
+                    1 => any::<u16>().prop_map(|i| RS_NAMES[pick_idx(i, RS_NAMES.len())].to_string()),
+                    1 => (65000u32..65010, any::<bool>()).prop_map(|(n, v6)| format!("AS{n}/{}", if v6 { "6" } else { "g" })),
+                    2 => any::<u16>().prop_map(|i| FLTR_NAMES[pick_idx(i, FLTR_NAMES.len())].to_string()),
+                ];
                 (
                     Just(spec),
                     prop::collection::vec(expr_strategy(a, r, f), 2..8),
+                    // errors injected for one query of one member of the sequence
+                    prop::collection::vec(
+                        (
+                            0u8..8,
+                            keys,
+                            prop_oneof![Just(Answer::NotFound), Just(Answer::NotUnique), Just(Answer::Other)],
+                        ),
+                        0..4,
+                    ),
                 )
             })
-            .prop_map(|(spec, exprs)| Case { spec, exprs })
+            .prop_map(|(mut spec, exprs, epoch_errors)| {
+                spec.db.epoch_errors = epoch_errors;
+                Case { spec, exprs }
+            })
             .boxed()
     }
     fn check(&self, case: &Case) -> Obs {
@@ -543,6 +562,12 @@ impl Prop for C17 {
         let mut prev_interesting = false;
         for (i, expr) in case.exprs.iter().enumerate() {
             let text = expr.text();
+            // the errors injected for this member apply to its evaluation on the shared
+            // evaluator and on the fresh one alike
+            server.set_epoch(i);
+            if case.spec.db.epoch_errors.iter().any(|(e, _, _)| *e as usize == i) {
+                obs.class("member-with-an-error-injected-for-it-alone");
+            }
             let on_shared = eval_real(&mut shared, &text);
             let fresh = match bgpfu::RpslEvaluator::new("127.0.0.1", server.port) {
                 Ok(mut e) => eval_real(&mut e, &text),
